@@ -25,7 +25,8 @@ EXPLANATION = ("Lean: relay of any addon output = exactly the well-formed enable
                "Outside the model: picojson's own JSON grammar (lines are generated from a grammar whose classification is "
                "unambiguous), addon process spawning, premium ids, file-list mode with >= 2 files per invocation.")
 THEOREMS = ["Cppcheck.Addon.relay_wellformed", "Cppcheck.Addon.relay_sound", "Cppcheck.Addon.convert_report_props",
-            "Cppcheck.Addon.relay_failed_iff", "Cppcheck.Addon.convert_mkLine", "Cppcheck.Addon.convert_mkLine_filtered"]
+            "Cppcheck.Addon.relay_failed_iff", "Cppcheck.Addon.convert_mkLine", "Cppcheck.Addon.convert_mkLine_filtered",
+            "Cppcheck.Addon.ctuInfo_all_addons"]
 MODULES = ["Cppcheck.Props.C34"]
 
 SEVS = ["error", "warning", "style", "performance", "portability", "information", "debug", "none", "internal", "bogus", ""]
@@ -316,6 +317,15 @@ def run(ctx, res):
                 bad.append(r[1])
     res.oblig("correspondence:addon-relay", not bad, "correspondence",
               "" if not bad else "%d of %d addon outputs relayed differently from the model; first: %s" % (len(bad), len(cases), json.dumps(bad[0], ensure_ascii=False)[:1800]))
+    # summaries of several addons must all reach the whole-program phase (with and without build dir)
+    bad_s = []
+    nsum = 12 if ctx.tier == "thorough" else 4
+    for k in range(nsum):
+        r = summary_case(ctx, res, drv, rng, 7000 + k, builddir=(k % 2 == 0))
+        if r is not None:
+            bad_s.append(r)
+    res.oblig("correspondence:summaries-forwarded", not bad_s, "correspondence",
+              "" if not bad_s else "%d of %d multi-addon runs: ctu-info seen by the whole-program phase differs from the model; first: %s" % (len(bad_s), nsum, json.dumps(bad_s[0])[:1200]))
     # whole-program phase: ill-typed output of a ctu addon must not terminate the process (fixed by 9260697)
     ctu_cases = [dict(addon="ctuaddon", lines=[], exitcode=0, enabled={"style"},
                       ctu=[dict(kind="obj", text='{"file":"t.c","linenr":"1","column":3,"severity":"style","message":"illtyped","addon":"ctuaddon","errorId":"e2"}')],
@@ -328,6 +338,61 @@ def run(ctx, res):
             res.violation("ill-typed addon output in the whole-program phase: status %s, internalError reported: %s" % (rc, bool(got) and any(f["id"] == "internalError" for f in got)),
                           dict(case="ctu addon prints linenr as string", builddir=case["builddir"], stderr=se[-800:]), concrete=True, key=None)
         shutil.rmtree(d, ignore_errors=True)
+
+
+def summary_case(ctx, res, drv, rng, k, builddir):
+    """2..3 scripted ctu addons, each printing some summary lines (canonical JSON) and some findings in the per-file phase;
+    in the whole-program phase each script copies the ctu-info it is given.  P_impl: every summary of every addon is there."""
+    d = os.path.join(ctx.tmp, "s%d" % k)
+    os.makedirs(d, exist_ok=True)
+    open(os.path.join(d, "t.c"), "w").write("void f(void)\n{\n  int x = 1;\n  (void)x;\n}\n")
+    naddons = rng.choice([2, 2, 3])
+    outs, args = [], [ctx.cppcheck, "-q", "--xml", "--enable=style"]
+    for a in range(naddons):
+        name = "sa%d" % a
+        lines = []
+        for j in range(rng.choice([1, 1, 2, 3])):      # every addon prints at least one summary: losing an earlier addon's is visible
+            lines.append(dict(kind="obj", obj={"summary": "%s_%d" % (name, j)}, text='{"summary":"%s_%d"}' % (name, j)))
+        if rng.random() < 0.5:
+            o = dict(file="t.c", linenr=1, column=1, severity="style", message="m", addon=name, errorId="e", extra="")
+            lines.insert(rng.randrange(len(lines) + 1), dict(kind="obj", obj=o, text=json.dumps(o)))
+        outs.append(lines)
+        open(os.path.join(d, name + ".txt"), "w").write("".join(l["text"] + "\n" for l in lines))
+        sh = os.path.join(d, name + ".sh")
+        open(sh, "w").write("#!/bin/sh\nfor a in \"$@\"; do last=\"$a\"; done\ncase \"$last\" in\n *.ctu-info) cat \"$last\" > '%s/seen_%s.txt'; exit 0;;\n *filelist*|*.txt) while read f; do cat \"$f\"; done < \"$last\" > '%s/seen_%s.txt'; exit 0;;\nesac\ncat '%s/%s.txt'\nexit 0\n" % (d, name, d, name, d, name))
+        os.chmod(sh, os.stat(sh).st_mode | stat.S_IEXEC)
+        open(os.path.join(d, name + ".json"), "w").write(json.dumps(dict(executable=sh, ctu=True)))
+        args.append("--addon=%s.json" % name)
+    if builddir:
+        os.makedirs(os.path.join(d, "bd"), exist_ok=True)
+        args.append("--cppcheck-build-dir=bd")
+    args.append("t.c")
+    rc, so, se = core.sh(args, cwd=d, timeout=120)
+    op = "ctuinfo 63 " + " / ".join(" ".join(enc_line(l) for l in ls) or "E" for ls in outs)
+    rc2, mo, me = core.run_lines(drv, [], [op])
+    want = [core.unhx(x).decode() for x in (mo[0].split(" ")[1:] if mo and mo[0].startswith("ctu") else []) if x]
+    seen = {}
+    for a in range(naddons):
+        p = os.path.join(d, "seen_sa%d.txt" % a)
+        seen["sa%d" % a] = [json.loads(l)["summary"] for l in open(p).read().split("\n") if l.strip().startswith("{")] if os.path.exists(p) else None
+    res.case("summaries|" + op + "|%s" % builddir, sum(len(x) for x in outs) >= 2, dict(addons=[[l["text"] for l in ls] for ls in outs], builddir=builddir, seen=seen, model=want) if k % 2 == 0 else None)
+    shutil.rmtree(d, ignore_errors=True)
+    all_expected = [l["obj"]["summary"] for ls in outs for l in ls if "summary" in l["obj"]]
+    problems = []
+    for a, got in seen.items():
+        if got is None:
+            if all_expected:
+                problems.append("%s was not called for the whole-program phase" % a)
+            continue
+        if sorted(got) != sorted(all_expected):
+            res.violation("addon summaries lost on the way to whole-program analysis (builddir=%s): %s received %s, the addons printed %s" % (builddir, a, got, all_expected),
+                          dict(addons=[[l["text"] for l in ls] for ls in outs], builddir=builddir, seen=seen), concrete=True, key=None)
+        # the addons run in the iteration order of Settings::addons (an unordered_set): compare up to the order of the addon
+        # groups, but the summaries of ONE addon must keep their order
+        within = all([x for x in got if x.startswith(n + "_")] == [x for x in want if x.startswith(n + "_")] for n in seen)
+        if sorted(got) != sorted(want) or not within:
+            problems.append("%s: impl %s model %s" % (a, got, want))
+    return dict(problems=problems, builddir=builddir) if problems else None
 
 
 def load_corpus():
